@@ -21,7 +21,7 @@ func init() {
 		ID: "C06",
 		Meta: func(tier string) fw.Meta {
 			return fw.Meta{
-				Flavours: []string{"plain", "cover"},
+				Flavours: []string{"plain", "cover", "386"},
 				Blocks:   16,
 				Procs:    16,
 				Rule: "case = history of Add/Pop/Remove/Set/Reorder/Clear/NewWithData with an update callback installed (distinct elements = unique tags, keys with many ties so that equal-priority elements meet), removals chosen both by raw offset and by the reported position of a chosen held element, followed by a drain with positions re-checked after every Pop; " +
